@@ -235,8 +235,8 @@ where
             None => yielded.push(None),
             Some(inner) => {
                 // the vector a client believes it got: front / back counters
-                let k = if back { al.wrapping_sub(1).wrapping_sub(b).wrapping_sub(d) } else { f + d };
-                if back { b += d + 1 } else { f += d + 1 }
+                let k = if back { al.wrapping_sub(1).wrapping_sub(b).wrapping_sub(d) } else { f.wrapping_add(d) };
+                if back { b = b.wrapping_add(d).wrapping_add(1) } else { f = f.wrapping_add(d).wrapping_add(1) }
                 yielded.push(Some(k));
                 work[rng.below(nthreads)].push((k, inner));
             }
@@ -270,8 +270,8 @@ where
                         i += 1;
                         let e = match (back, d) { (false, 0) => inner.next(), (true, 0) => inner.next_back(), (false, d) => inner.nth(d), (true, d) => inner.nth_back(d) };
                         let Some(e) = e else { break };
-                        let t = if back { vl.wrapping_sub(1).wrapping_sub(b).wrapping_sub(d) } else { f + d };
-                        if back { b += d + 1 } else { f += d + 1 }
+                        let t = if back { vl.wrapping_sub(1).wrapping_sub(b).wrapping_sub(d) } else { f.wrapping_add(d) };
+                        if back { b = b.wrapping_add(d).wrapping_add(1) } else { f = f.wrapping_add(d).wrapping_add(1) }
                         jitter(*e);
                         *e = g(k, t, *e);
                         touched.push((k, t, e as *mut u64 as usize));
@@ -353,9 +353,14 @@ fn thr_case(out: &mut Out, order: Order, nr: usize, nc: usize, rows: bool, opat:
     out.observe(&format!("len={len} yield=[{}] data={d}", ys.join(", ")));
 }
 
-/// one pattern character: `F` = next, `B` = next_back, `1`..`9` = nth(d), `a`..`i` = nth_back(d)
+/// one pattern character: `F` = next, `B` = next_back, `1`..`9` = nth(d), `a`..`i` = nth_back(d), `H` / `h` = nth / nth_back of a huge count
 fn pat_step(c: char) -> (bool, usize) {
-    match c { 'B' => (true, 0), '1'..='9' => (false, c as usize - 48), 'a'..='i' => (true, c as usize - 96), _ => (false, 0) }
+    match c {
+        'B' => (true, 0), '1'..='9' => (false, c as usize - 48), 'a'..='i' => (true, c as usize - 96),
+        // jumps far beyond any extent (a product with the pitch overflows): the contract says `None`
+        'H' => (false, usize::MAX / 3 + 1), 'h' => (true, usize::MAX / 5 + 1),
+        _ => (false, 0),
+    }
 }
 
 /// the positions of a vector of `vl` elements that a client following `ipat` (cycled, until the
@@ -379,7 +384,9 @@ fn positions(vl: usize, ipat: &str) -> Vec<usize> {
 }
 
 fn pattern(rng: &mut Rng, n: usize) -> String {
-    let kind = rng.below(10);
+    let kind = rng.below(11);
+    // a few single steps, then a jump far beyond the end
+    if kind == 10 { let k = rng.below(n.min(3) + 1); let last = if rng.coin() { 'H' } else { 'h' }; return (0..k).map(|_| if rng.coin() { 'F' } else { 'B' }).chain([last]).collect(); }
     // internal iteration: `for_each` over everything / after a few single steps
     if kind == 8 { return "E".to_string(); }
     if kind == 9 { let k = rng.below(n.min(3) + 1); return (0..k).map(|_| if rng.coin() { 'F' } else { 'B' }).chain(['E']).collect(); }
@@ -423,7 +430,7 @@ pub fn run_c17(out: &mut Out, rng: &mut Rng, tier: Tier) -> String {
     }
     format!(
         "type level: in-process auto-trait probes (16: outer / inner iterator x rows / cols x the four (Send, Sync) classes of element types u64, Cell<u32>, a Sync-but-not-Send struct, Rc<u8>) and {} compile probes (cargo check of one client program each under /verif/probes: need_send / need_sync bounds, moving the iterator into a scoped thread, sharing it with a scoped thread, cloning it, touching the matrix while the iterator is alive), verdict and diagnostic code compared with the model and with the property's rule; \
-         run time: {cases} threaded cases: shapes 0..5 x 0..5 plus 2x9, 9x2, 16x3, 3x16, 33x64, 5x200, 120x7, both orders, rows and columns, outer call patterns of next / next_back / nth(d) / nth_back(d) (all-front, all-back, alternating, back-then-front, random, every-other-one from the front / from the back, mixed steps and jumps of 1..3 from both ends, for_each over the rest (internal iteration); mostly running past exhaustion, a quarter partial), inner patterns likewise, 1..16 threads (more and fewer vectors than threads) with the vectors assigned to threads by the run's PRNG, per-element jitter, a barrier start, the outer iterator itself shared (len) with and then moved to other threads. \
+         run time: {cases} threaded cases: shapes 0..5 x 0..5 plus 2x9, 9x2, 16x3, 3x16, 33x64, 5x200, 120x7, both orders, rows and columns, outer call patterns of next / next_back / nth(d) / nth_back(d) (all-front, all-back, alternating, back-then-front, random, every-other-one from the front / from the back, mixed steps and jumps of 1..3 from both ends, jumps of usize::MAX / 3 + 1 and usize::MAX / 5 + 1 after a few steps, for_each over the rest (internal iteration); mostly running past exhaustion, a quarter partial), inner patterns likewise, 1..16 threads (more and fewer vectors than threads) with the vectors assigned to threads by the run's PRNG, per-element jitter, a barrier start, the outer iterator itself shared (len) with and then moved to other threads. \
          Oracle: ownership map thread -> addresses pairwise disjoint, every reference at the address of the position it stands for, no vector yielded twice, final matrix equal to the sequential run through indexing. A case = one probe group or one threaded run",
         2 * 2 * (4 * 4 + 2)
     )
